@@ -112,6 +112,11 @@ fn one_file(ctx: &mut Ctx, index: u64, bytes: &[u8], class: &str, r: &mut Rng, m
                 }
                 let chunk = [1usize, 7, 64, 8192][(j + ki) % 4];
                 let mut rd = FaultReader::new(bytes, o, *kind, chunk);
+                // persistent and one-shot faults alternate: a swallowed one-shot error lets the decode finish
+                rd.one_shot = (j / 2 + ki) % 2 == 1;
+                if rd.one_shot {
+                    ctx.count("reader_faults_one_shot");
+                }
                 let res = if j % 2 == 0 {
                     Beatmap::decode(&mut rd).map(|_| ())
                 } else {
